@@ -175,7 +175,7 @@ func run(c *hk.Ctx) {
 	if c.Thorough() {
 		n = 1500
 	}
-	constructs := []string{"bytes", "time", "embedded", "embedded-ptr", "embedded-tagged", "string-option", "interface", "ref-escape", "dash-comma", "repeat"}
+	constructs := []string{"bytes", "time", "embedded", "embedded-ptr", "embedded-tagged", "string-option", "interface", "ref-escape", "dash-comma", "repeat", "repeat-deep"}
 	safeNamed := []string{}
 	for _, cs := range cases {
 		if cs.construct == "" && cs.name != "Wide" {
@@ -334,6 +334,25 @@ func (r *runner) runCase(cs tcase, budgets []int) {
 					Input: input(map[string]any{"style": st}), Observed: map[string]any{"ref": ref, "schema": trunc(b, 3000)}})
 				refBroken[st] = true
 				break
+			}
+			if !refChainEnds(docs[st], ref) {
+				c.Violate(hk.Violation{Fingerprint: "schema:" + st + ":" + r.constructOf(cs, false) + ":ref-self-referential",
+					What:  "a $ref of the generated schema leads back to itself and never reaches a schema",
+					Input: input(map[string]any{"style": st}), Observed: map[string]any{"ref": ref, "schema": trunc(b, 3000)}})
+				refBroken[st] = true
+				break
+			}
+		}
+		// ... and resolves to the schema of the type of the field that carries it
+		if !cs.noModel && (cs.construct == "" || cs.construct == "repeat" || cs.construct == "repeat-deep") && st != "inline" {
+			var bad []refMismatch
+			r.refTargets(docs[st], cs.td, docs[st], "#", map[string]bool{}, &bad)
+			c.Count("reftarget|"+cs.name+"|"+st, nontrivial, nil, "oracle:ref-target")
+			if len(bad) > 0 {
+				c.Violate(hk.Violation{Fingerprint: "schema:" + st + ":" + r.constructOf(cs, false) + ":ref-wrong-target",
+					What:     "a $ref does not lead to the schema of the struct type of the field that carries it (at " + bad[0].At + ": " + bad[0].Ref + " for Go type " + bad[0].GoType + ")",
+					Input:    input(map[string]any{"style": st}),
+					Observed: map[string]any{"target_properties": bad[0].Got, "schema": trunc(b, 3000)}, Expected: map[string]any{"target_properties": bad[0].Want}})
 			}
 		}
 
